@@ -169,7 +169,7 @@ Lemma amount_str_shape z : 0 <= z <= MAX_MONEY ->
   let coins := z / COIN in let zats := z mod COIN in
   (zats = 0 /\ amount_str z = dec_str coins) \/
   (zats <> 0 /\ exists f k, amount_str z = dec_str coins ++ 46 :: f /\ f <> [] /\ forallb is_digit f = true /\
-     (length f + k = 8)%nat /\ dec_val (f ++ repeat 48 k) = zats).
+     (length f + k = 8)%nat /\ dec_val (f ++ repeat 48 k) = zats /\ no_trail 48 f).
 Proof.
   intros Hz coins zats. unfold amount_str. fold coins zats.
   destruct (zats =? 0) eqn:E; [left; split; [lia | reflexivity]|]. right. split; [lia|].
@@ -196,7 +196,7 @@ Proof.
     + cbn [app]. exact T.
   - split; [exact Nf|]. split.
     + rewrite HP, forallb_app in DP. apply andb_true_iff in DP. tauto.
-    + split; [|rewrite <- HP; exact VP].
+    + split; [|split; [rewrite <- HP; exact VP | apply trim_end_no_trail]].
       assert (X : length P = length (f ++ repeat 48 k)) by (rewrite <- HP; reflexivity).
       rewrite app_length, repeat_length in X. lia.
 Qed.
@@ -214,7 +214,7 @@ Proof.
   assert (Hu : 0 <= z / COIN * COIN <= u64_max /\ z <= u64_max).
   { unfold u64_max. rewrite max_money_val, coin_val in *. lia. }
   unfold parse_amount.
-  destruct S as [[Z0 ->] | [NZ (f & k & -> & Nf & Df & Lf & Vf)]].
+  destruct S as [[Z0 ->] | [NZ (f & k & -> & Nf & Df & Lf & Vf & _)]].
   - rewrite <- (app_nil_r (dec_str (z / COIN))) at 1.
     rewrite span_app by (auto using dec_str_digits; try exact I; apply dec_str_digits; lia).
     rewrite (is_nil_false _ (dec_str_nonempty _)). cbn [negb is_nil].
